@@ -142,6 +142,7 @@ func (c *Client[Req, Res]) CallServerStream(ctx context.Context, request *Reques
 		return nil, err
 	}
 	if err := conn.CloseRequest(); err != nil {
+		_ = conn.CloseResponse()
 		return nil, err
 	}
 	return &ServerStreamForClient[Res]{conn: conn}, nil
